@@ -79,6 +79,7 @@ fn main() -> ExitCode {
                     max_single_faults: 0,
                     multi_fault_plans: 0,
                     kill_plans: 0,
+                    permanent_plans: 0,
                     layouts_per_scenario: 1,
                     threads: 1,
                     wall_limit_s: 100,
@@ -208,6 +209,7 @@ fn cmd_check(args: &[String]) -> i32 {
         scenarios: ((if quick { scen_q } else { scen_t }) as f64 * scale) as usize,
         max_single_faults: if quick { 30 } else { 120 },
         multi_fault_plans: if quick { 4 } else { 16 },
+        permanent_plans: if quick { 1 } else { 4 },
         // crash points only make a difference where a store survives the run
         kill_plans: match (id, quick) {
             ("C18", true) => 4,
